@@ -112,7 +112,9 @@ func (k Keeper) prepareCoinToDistributeForModuleAccount(ctx sdk.Context, source 
 
 func (k Keeper) prepareCoinToDistributeForBaseAccount(ctx sdk.Context, source types.Account, subDistributorName string) sdk.DecCoins {
 	srcAccount, _ := sdk.AccAddressFromBech32(source.Id)
-	coinsToSend := k.GetAccountCoins(ctx, srcAccount)
+	// only spendable coins can be moved; asking for locked (vesting) coins makes the bank
+	// transfer fail half-way, after it already debited the denominations it could move
+	coinsToSend := k.bankKeeper.SpendableCoins(ctx, srcAccount)
 	coinsToDistribute := sdk.NewDecCoinsFromCoins(coinsToSend...)
 
 	if len(coinsToDistribute) > 0 {
